@@ -18,14 +18,23 @@ patch = os.path.join(sd, "patch.diff")
 report = {"name": name, "property": prop, "worktree": wt}
 if not skip:
     # the change is applied in the worktree: tests must pass
-    rc, out = sh("cargo test --workspace --no-fail-fast --offline 2>&1 | grep -E '^test result|FAILED|failed|error' | head -20", wt)
-    report["tests_with_change"] = "ok" if ("FAILED" not in out and "failed" not in out.replace("0 failed", "") and "error" not in out) else out[-500:]
+    rc, out = sh("cargo test --workspace --no-fail-fast --offline 2>&1 | grep -E '^test result|^error' ", wt)
+    import re
+    out = re.sub(r"\x1b\[[0-9;]*m", "", out)
+    res = re.findall(r"test result: (\w+)\. (\d+) passed; (\d+) failed", out)
+    total = sum(int(a) for _, a, _ in res)
+    ok = bool(res) and all(r == "ok" and f == "0" for r, _, f in res) and "error" not in out and total >= 3212
+    report["tests_passed"] = total
+    report["tests_with_change"] = "ok" if ok else out[-500:]
+    sh("cargo build --offline -q 2>&1 | tail -3", wt)
     rc1, out1 = sh("bash SEEDED/demo.sh", wt)
     report["demo_with_change_rc"] = rc1
     rcr, _ = sh(["git", "apply", "-R", patch], wt)
+    sh("cargo build --offline -q 2>&1 | tail -3", wt)
     rc2, out2 = sh("bash SEEDED/demo.sh", wt)
     report["demo_without_change_rc"] = rc2
     sh(["git", "apply", patch], wt)
+    sh("cargo build --offline -q 2>&1 | tail -3", wt)
     report["confirmed"] = (report["tests_with_change"] == "ok" and rc1 != 0 and rc2 == 0 and rcr == 0)
     print(json.dumps(report, indent=1), flush=True)
     if not report["confirmed"]:
@@ -61,8 +70,8 @@ try:
         results[p] = {"rc": r.returncode, "caught": r.returncode == 1, "wall_s": round(time.time() - t0, 1), "violation": viol[:1], "detail": detail}
         print(p, json.dumps(results[p]), flush=True)
 finally:
-    subprocess.run(["git", "-C", "/repo", "checkout", "--", "."], check=False)
     subprocess.run(["git", "-C", "/repo", "reset", "-q"], check=False)
+    subprocess.run(["git", "-C", "/repo", "checkout", "--", "."], check=False)
 rc, out = sh(["git", "-C", "/repo", "status", "--porcelain"], "/repo")
 print("repo clean:", not out.strip())
 meta_path = os.path.join(dst, "meta.json")
